@@ -356,6 +356,10 @@ REGISTRY["C12"]["teq"].append({"engine": "clocksim", "quick": {"n": 4000, "seedo
                                 "oracle": False, "mismatch_is_failure": False, "timeout": 3400,
                                 "nontrivial": lambda case, res: " 0," in case and " 1," in case, "distinct_key": lambda case, res: case,
                                 "what": "T-eq for Model.Clock (hook H14): a fresh VersionClock shard started at a chosen value and driven call by call -- next(key, wall) and observe(key, ts) with walls and timestamps below, at and above the shard, around 2^64-1 included; the timestamp issued and the shard value after every call must equal Model.Clock.next_alone / observe_alone (non-trivial = the sequence has both kinds of call)"})
+REGISTRY["C16"]["teq"].append({"engine": "cachesched", "quick": {"n": 12, "seedoff": 816}, "thorough": {"n": 600, "seedoff": 816},
+                                "oracle": True, "mismatch_is_failure": False, "timeout": 3400,
+                                "nontrivial": lambda case, res: ":" in res and (" F" in case), "distinct_key": lambda case, res: case,
+                                "what": "T-sched for Model.CacheGen layer B: one persistent store with the cache and TTL on, two keys whose values all have one length; a script of puts, update_ttl calls, deletes, flushes (the harness reads from the live snapshot which current generations were offloaded), full reads, and one reader HELD between its device read and its return (scheduling point c08_unpinned, hook H5) while other calls run, is executed on the real store and as the same event list by Model.CacheGen.brun with the cache on; every read result (which generation's value, or not found), every update_ttl / delete answer and whether the held reader went to the device must agree (non-trivial = a flush happened and a read returned a value)"})
 REGISTRY["C16"]["teq"].append({"engine": "cgen", "quick": {"n": 4000, "seedoff": 616}, "thorough": {"n": 120000, "seedoff": 616},
                                 "oracle": False, "mismatch_is_failure": False, "timeout": 3400,
                                 "nontrivial": lambda case, res: any(t != "-" and int(t) >= 100 for t in res.split()), "distinct_key": lambda case, res: case,
